@@ -10,6 +10,18 @@ CLAIMED = {}
 NOT_YET = {}
 
 
+def statement_files(pid):
+    """The statement files of the property that are part of the development (listed in _CoqProject)."""
+    listed = [l.strip() for l in open(os.path.join(VERIF, "coq", "_CoqProject")) if l.strip().startswith("Properties/")]
+    mine = [f for f in listed if os.path.basename(f) == pid + ".v" or os.path.basename(f).startswith(pid + "_")]
+    n = 0
+    import re
+    for f in mine:
+        src = re.sub(r"\(\*.*?\*\)", "", open(os.path.join(VERIF, "coq", f), encoding="utf8").read(), flags=re.S)
+        n += len(re.findall(r"^\s*Theorem\s", src, flags=re.M))
+    return f" Statement files ({n} theorems; summaries in DESIGN.md section 7): " + ", ".join(mine) + "."
+
+
 def claim(pid, text, note, technique="machine-checked Coq theorems about a hand-written Gallina model + per-run differential correspondence (extracted OCaml vs /repo/src, cross-checked by vm_compute)"):
     CLAIMED[pid] = dict(text=text, note=note, technique=technique)
 
@@ -46,7 +58,7 @@ claim("C12", "Coq theorems for all inputs: strip/remove_cand (profile, tuple, si
 
 claim("C05", "Coq theorems for all score profiles, m, L, k: validation passes iff arguments and every ballot respect the limits (EValue for arguments, EType for ballots, precedence and first-offender order), totals = sum of weight x score, top-m election spec with exact ValueError characterisation, and the five wrapper classes equal GeneralRating at the documented (L,k) -- the wrapper theorems are stated over Generated/Wiring.v, which is regenerated from /repo/src on every build; per-run correspondence with boundary-violating ballots.",
       COMMON_NOTE + "Wiring generator (harness/wiring_gen.py, fail-closed ast reader) is trusted to render what the wrappers forward.")
-claim("C09", "Coq theorems on arbitrary state lists: negative indices, IndexError exactly out of range, cumulative elected/eliminated/remaining/ranking/status closed forms and monotonicity, get_profile determined by the consumed script prefix and script-independent when no draw is consumed, one-shot rules, STV, IRV, SequentialRCV, wrapper classes, TopTwo and Alaska: the recorded states are a valid trace, get_profile(i) replays it, has exactly the remaining candidates and re-scores to the recorded tallies (C09_replay.v); per-run correspondence of random query histories on every rule with before/after deep comparison.",
+claim("C09", "Coq theorems on arbitrary state lists: negative indices, IndexError exactly out of range, cumulative elected/eliminated/remaining/ranking/status closed forms and monotonicity, get_profile determined by the consumed script prefix and script-independent when no draw is consumed, one-shot rules, STV, IRV, SequentialRCV, wrapper classes, TopTwo and Alaska: the recorded states are a valid trace, get_profile(i) replays it, has exactly the remaining candidates and re-scores to the recorded tallies (C09_replay.v); get_step modelled (Election2.v); per-run correspondence of random query histories (incl. get_step) on every rule with before/after deep comparison.",
       COMMON_NOTE + "profile-candidates / re-scoring for multi-round rules are decided by the per-run oracle and correspondence (theorem proved for one-shot rules only). Known findings: PluralityVeto replay mutates the object; Alaska replay re-draws tiebreaks.")
 claim("C13", "Coq theorems over Generated/Wiring.v (regenerated from /repo/src each build): IRV = STV(m=1), SNTV = Plurality, SequentialRCV = STV with the full-weight transfer, STV defaults and quota formulas; TopTwo and Alaska unfolded into their documented compositions (iff), TopTwo winner = head-to-head first-preference winner of the top two, Alaska = Plurality(m_1) then STV(m_2) with consecutive round numbers; per-run correspondence plus differential runs inside the implementation under the same recorded random stream.",
       COMMON_NOTE + "Known finding: Alaska's internal get_profile replay re-draws random tiebreaks and can raise KeyError.")
@@ -71,7 +83,7 @@ claim("C18", "Coq theorems from the parsed table: one ballot per distinct row pa
 claim("C19", "Coq theorems: Lp sum = p-norm^p of the difference of normalised ranking distributions (independent of the key order), symmetry, zero iff same distribution, invariance under reordering/condensing/rescaling, triangle inequality for p=1, inf (over Q), p=2 (Cauchy-Schwarz, root-free) and every natural p (Minkowski over R via convexity); ballot graph: node and edge sets for n = 2..6 by kernel-checked reflection against all-n characterisations of the spec, node weights add up to the total. Per-run correspondence (exact sums; floats within 1e-9) and exact graph comparison for n = 2..6.",
       COMMON_NOTE + "Only c19_triangle_p / c19_minkowski* / c19_pow_convex depend on axioms: ClassicalDedekindReals.sig_forall_dec and FunctionalExtensionality.functional_extensionality_dep (Coq.Reals). The graph theorems use vm_compute (n=6: ~90 s).")
 
-claim("C14", "Coq theorems for every draw ('every stream'): Plackett-Luce / short PL ballots (length, no repeats, declared candidates, zero-support candidates only as the final tied group, completeness for name-PL), cumulative ballots distribute exactly num_votes points, table samplers, slate ballot types are arrangements of the slate multiset and slate ballots are complete, MCMC chain states are permutations of the seed, spatial ballots are stable sorts, AlternatingCrossover truncation characterised; common tail: per-bloc condense preserves weights, by-bloc profiles add up to the aggregate, total weight = sum of pool sizes, positive whole weights; per-bloc sizes exactly the apportioned sizes and aggregate exactly N under the run-checked contract of apportionment.compute (C14_sizes.v). Per-run correspondence of 13 generator classes under recorded numpy/random streams + well-formedness oracle on all 16.",
+claim("C14", "Coq theorems for every draw ('every stream'): Plackett-Luce / short PL ballots (length, no repeats, declared candidates, zero-support candidates only as the final tied group, completeness for name-PL), cumulative ballots distribute exactly num_votes points, table samplers, slate ballot types are arrangements of the slate multiset and slate ballots are complete, MCMC chain states are permutations of the seed, spatial ballots are stable sorts, AlternatingCrossover truncation characterised; common tail: per-bloc condense preserves weights, by-bloc profiles add up to the aggregate, total weight = sum of pool sizes, positive whole weights; per-bloc sizes exactly the apportioned sizes and aggregate exactly N under the run-checked contract of apportionment.compute (C14_sizes.v). Per-run correspondence of all 16 generator classes (IC/IAC through the recorded Dirichlet table, CambridgeSampler through its historical type table) under recorded numpy/random streams + well-formedness oracle.",
       COMMON_NOTE + "apportionment.compute (Huntington-Hill) is an external oracle: checked per run to be called with the documented proportions and N, to sum to N and to equal an independent call. ImpartialCulture/IAC (Dirichlet table) and CambridgeSampler (pickled data) have no Gallina model: oracle only. Known findings: AlternatingCrossover truncation, MCMC corner cases.")
 claim("C16", "Coq theorems over finite rational distributions: Plackett-Luce law (mass 1, closed-form probability, support = what the model's core accepts), iid law for cumulative ballots, slate-type sampler = cohesion-weighted draws renormalised when a slate is used up (bin characterisation), exact samplers draw from the C15 tables, name-BT MCMC detailed balance and stationarity for all sizes, slate-BT MCMC detailed balance exactly for cohesion >= 1/2 (machine-checked refutation below 1/2), spatial ballots sorted by distance for every stream, AlternatingCrossover misalignment refuted with a witness. Per-run: the ARGUMENTS handed to the primitives (population aligned with p, size, replace, tables) are compared with the model's and with the documented parameters.",
       COMMON_NOTE + "Laws of numpy.random.choice / uniform / random.* and the Dirichlet mean (Impartial Culture) are trusted; no frequency test is used as a verdict. Known findings: AlternatingCrossover internal order, slate-BT MCMC below cohesion 1/2, CambridgeSampler at cohesion 0/1.")
@@ -88,7 +100,7 @@ for pid in sorted(CLAIMED):
         "evidence_file": f"/verif/evidence/{pid}.json",
         "replay_cmd_template": f"./check {pid} --replay {{path}}",
         "engine": "coq-model+correspondence",
-        "level_claimed": {"category": "proof", "text": c["text"], "design_ref": f"DESIGN.md section 7 ({pid})"},
+        "level_claimed": {"category": "proof", "text": c["text"] + statement_files(pid), "design_ref": f"DESIGN.md section 7 ({pid})"},
         "level_note": c["note"],
         "technique": c["technique"],
     })
